@@ -1010,4 +1010,49 @@ def vmcOverM {σ₁ σ₂ : Type} (sq : Machine σ₁ (Item Int) (Item Int)) (sm
   compute := VmcOver.compute sq sm cfg
   reset := VmcOver.reset sq sm
 
+/-! ## Contexts with nested dictionaries: `d.update({name: v})` and `update_recursively(d, "a.b", v)`
+
+`Count` adds its counter with `context.update({self.name: self.count})`: the name is ONE key, whatever the string
+contains.  `lena.context.update_recursively(d, s, v)` with a string `s` reads `s` as a dot-separated path
+(`str_to_dict`, `lena/context/functions.py:611-663`).  Both are transcribed here on contexts whose values may be
+nested dictionaries, so that the difference between them (seed C09-I) can be stated; the driver executes both
+(`"nset"` requests) against Python's `dict.update` and lena's `update_recursively`. -/
+
+/-- a context value: a leaf or a nested dictionary -/
+inductive NVal where
+  | leaf (v : Leaf)
+  | dict (items : List (String × NVal))
+
+/-- a context with nested dictionaries, as the list of its items -/
+abbrev NCtx := List (String × NVal)
+
+/-- `d.update({k: v})` -/
+def NCtx.set : NCtx → String → NVal → NCtx
+  | [], k, v => [(k, v)]
+  | (k', v') :: rest, k, v => if k' = k then (k, v) :: rest else (k', v') :: NCtx.set rest k v
+
+/-- the binding of a key (`none`: the key is absent) -/
+def NCtx.lookup : NCtx → String → Option NVal
+  | [], _ => none
+  | (k', v') :: rest, k => if k' = k then some v' else NCtx.lookup rest k
+
+/-- `update_recursively(d, other)` for `other = str_to_dict("k1.k2...kn", v)`, given the path `[k1, …, kn]`:
+`n = 1`: `d[k1] = v`; `n > 1`: if `k1 in d` — `d[k1] = {}` unless it is a dictionary, then recursively into `d[k1]` —
+else `d[k1] = {k2: {… v}}`.  (The empty path does not occur: `"".split(".")` is `[""]`.) -/
+def NCtx.setPath : NCtx → List String → Leaf → NCtx
+  | d, [], _ => d
+  | d, [k], v => d.set k (.leaf v)
+  | d, k :: k2 :: ks, v =>
+    match d.lookup k with
+    | some (.dict sub) => d.set k (.dict (NCtx.setPath sub (k2 :: ks) v))
+    | _ => d.set k (.dict (NCtx.setPath [] (k2 :: ks) v))
+
+/-- `update_recursively(d, s, v)` for a string `s`: `str_to_dict` raises `LenaValueError` for the empty string,
+otherwise the path is `s.split(".")` -/
+def NCtx.updateRecursivelyStr (d : NCtx) (s : String) (v : Leaf) : Except Err NCtx :=
+  if s = "" then .error .valueError else .ok (d.setPath (s.splitOn ".") v)
+
+/-- a flat context (nested dictionaries, if any, being opaque leaves) as a nested one -/
+def Ctx.toN (c : Ctx) : NCtx := c.map (fun kv => (kv.1, NVal.leaf kv.2))
+
 end Lena.C09
